@@ -78,6 +78,10 @@ def to_str(it, v):
             inner = to_str(it, v.sort.payload(v))
             return V(TStr, (z3.If(v.terms[0], S.str_lit("None"), inner.t),))
         if isinstance(v.sort, S.TRef):
+            # str(obj) is obj.__str__() when the class (or a base) has a __str__ under contract
+            q, kind = it.m.find_method(v.sort.cls, "__str__") if v.sort.cls else (None, None)
+            if q and not it.spec:
+                return it.coerce(it.call_named(q, kind, [v], {}, None), TStr)
             return V(TStr, (it.eng.ufunc("ref_tostr", S.RefS, zs)(v.t),))
     raise OutOfSubset(f"str() of {v!r}")
 
@@ -443,6 +447,11 @@ def binop(it, op, a, b, node=None):
         if q is None:
             raise OutOfSubset(f"operator {type(op).__name__} on {a.sort}")
         return it.call_named(q, kind, [a, b], {}, node)
+    # a dict keys view used as a set operand (s & d.keys()): the key set of the dict
+    if isinstance(b, tuple) and b[0] == "keys" and isinstance(a, V) and isinstance(a.sort, S.TSet):
+        b = V(S.TSet(b[1].sort.key), (b[1].terms[0],))
+    if isinstance(a, tuple) and a[0] == "keys" and isinstance(b, V) and isinstance(b.sort, S.TSet):
+        a = V(S.TSet(a[1].sort.key), (a[1].terms[0],))
     if not (isinstance(a, V) and isinstance(b, V)):
         raise OutOfSubset(f"binary op on {a!r}, {b!r}")
     # arithmetic on an Optional operand: allowed when the path condition excludes None (a None operand would be a TypeError)
